@@ -231,3 +231,29 @@ func TestConfirmSubSecDigits(t *testing.T) {
 		}
 	}
 }
+
+// Recorded, not repaired (C03 NARROWV): 16-bit dimension fields and the 8+8-bit exposure bias wrap.
+func TestRecordedExifNarrowFields(t *testing.T) {
+	w := make([]byte, 4)
+	binary.LittleEndian.PutUint32(w, 70000)
+	rat := make([]byte, 8)
+	binary.LittleEndian.PutUint32(rat, uint32(0xFFFFFFFF-200+1)) // -200
+	binary.LittleEndian.PutUint32(rat[4:], 100)
+	exifIFD := cIFD(200, []cEnt{{0x9204, 10, 1, rat}})
+	ptr := make([]byte, 4)
+	binary.LittleEndian.PutUint32(ptr, 200)
+	p := cStream(8, []cEnt{{0x0100, 4, 1, w}, {0x8769, 4, 1, ptr}})
+	p = append(p, make([]byte, 200-len(p))...)
+	p = append(p, exifIFD...)
+	p = append(p, make([]byte, 64)...)
+	e, err := imagemeta.DecodeTiff(bytes.NewReader(p))
+	if err != nil {
+		t.Fatal(err)
+	}
+	if e.ImageWidth == 4464 {
+		t.Errorf("ImageWidth 70000 decoded as %d", e.ImageWidth)
+	}
+	if s := e.ExposureBias.String(); s != "-200/100" && s != "-2/1" {
+		t.Errorf("ExposureBiasValue -200/100 decoded as %s", s)
+	}
+}
